@@ -16,6 +16,9 @@ import (
 type c15File struct {
 	Rel string // slash path relative to the repository root
 	Src string
+	// LinkTo != "": the file is a symbolic link. Either the root-relative path of another workflow
+	// of the project or "@outside/<name>", a file in <scratch>/store-files. Src is the target's content.
+	LinkTo string
 }
 
 type c15Project struct {
@@ -29,7 +32,10 @@ type c15Project struct {
 	//  2: <scratch>/<OuterName>/vendor/<Name> whose .git is a FILE (submodule) inside an ordinary outer clone
 	//  3: as 2 but the inner repository has a .git directory (nested clone)
 	// The outer clone has its own workflow and its own, different configuration.
-	Layout       int
+	Layout int
+	// DirLink: 0 none; 1: <root>/.github is a symbolic link to <scratch>/store-github;
+	// 2: <root>/.github/workflows is a symbolic link to <scratch>/store-workflows
+	DirLink      int
 	OuterName    string
 	OuterCfg     string     // content of <outer>/.github/actionlint.yaml ("" = none)
 	OuterEntries []c15Entry // the `paths` entries in OuterCfg (nil when OuterCfg is broken or absent)
@@ -175,7 +181,7 @@ func c15GenProject(r *Rand) *c15Project {
 			return
 		}
 		used[rel] = true
-		p.Files = append(p.Files, c15File{rel, src})
+		p.Files = append(p.Files, c15File{Rel: rel, Src: src})
 	}
 	nTop := r.Range(1, 3)
 	for i := 0; i < nTop; i++ {
@@ -192,6 +198,26 @@ func c15GenProject(r *Rand) *c15Project {
 	if r.Chance(2, 5) {
 		// names with characters that are special in globs, YAML or shells
 		add(".github/workflows/"+r.Pick(c15OddNames), c15Workflow(r, false))
+	}
+	if r.Chance(1, 4) {
+		// a workflow that is a symbolic link, to another workflow of the repository or to a file outside
+		name := ".github/workflows/" + r.Pick([]string{"", "sub/"}) + "lnk-" + c15Ident(r) + r.Pick([]string{".yml", ".yaml"})
+		if r.Bool() {
+			t := p.Files[r.Intn(len(p.Files))]
+			if t.LinkTo == "" && !used[name] {
+				used[name] = true
+				p.Files = append(p.Files, c15File{Rel: name, Src: t.Src, LinkTo: t.Rel})
+			}
+		} else if !used[name] {
+			used[name] = true
+			p.Files = append(p.Files, c15File{Rel: name, Src: c15Workflow(r, false), LinkTo: "@outside/target-" + c15Ident(r) + ".yml"})
+		}
+	}
+	switch r.Intn(10) {
+	case 0:
+		p.DirLink = 1
+	case 1:
+		p.DirLink = 2
 	}
 	// the order in which `actionlint` (no arguments) lists them: sorted full paths
 	sort.Slice(p.Files, func(i, j int) bool { return p.Files[i].Rel < p.Files[j].Rel })
@@ -249,8 +275,14 @@ func c15GenProject(r *Rand) *c15Project {
 type c15Entry struct {
 	Glob string
 	Pats []string
-	Form int // 0: ignore list, 1: `ignore: []`, 2: `{}` (no ignore key), 3: null value
+	Form int // 0: ignore list, 1: `ignore: []`, 2: `{}` (no ignore key), 3: null value, 4: `ignore: *alias` of the list of entry SeqOf
+	// AliasNames[i] != "": pattern i is written as the alias *name of a scalar anchored in a
+	// separate top-level list; it stands for the pattern, not for its own name
+	AliasNames []string
+	SeqOf      int
 }
+
+var c15AnchorNames = []string{"zzz9", "e", "a", "is", "c15pat", "o", "qqq", "the"}
 
 type c15Filter struct {
 	Kind    string
@@ -564,6 +596,39 @@ func c15GenFilter(c *Case, p *c15Project, kind string, msgs []string) *c15Filter
 				e.Pats = append(e.Pats, c15GenPat(c, msgs))
 			}
 		}
+		if e.Form == 0 && r.Chance(1, 12) {
+			// some elements are YAML aliases
+			e.AliasNames = make([]string, len(e.Pats))
+			for k := range e.Pats {
+				if k == 0 || r.Bool() {
+					e.AliasNames[k] = r.Pick(c15AnchorNames) + fmt.Sprint(len(f.Entries)) + fmt.Sprint(k)
+					if r.Bool() {
+						e.AliasNames[k] = r.Pick([]string{"e", "a", "o", "i"}) // an anchor name that is a pattern matching most messages
+					}
+				}
+			}
+			// anchor names must be unique in the document
+			names := map[string]bool{}
+			for _, pe := range f.Entries {
+				for _, n := range pe.AliasNames {
+					names[n] = true
+				}
+			}
+			for k, n := range e.AliasNames {
+				if n != "" && names[n] {
+					e.AliasNames[k] = n + "x" + fmt.Sprint(len(f.Entries)) + fmt.Sprint(k)
+				}
+				names[e.AliasNames[k]] = true
+			}
+		} else if e.Form == 0 && r.Chance(1, 12) {
+			// the whole list is an alias of the list of an earlier entry
+			for k, pe := range f.Entries {
+				if pe.Form == 0 && len(pe.Pats) > 0 {
+					e.Form, e.SeqOf, e.Pats = 4, k, pe.Pats
+					break
+				}
+			}
+		}
 		f.Entries = append(f.Entries, e)
 	}
 	return f
@@ -579,10 +644,28 @@ func c15Config(p *c15Project, f *c15Filter) string {
 	}
 	var b strings.Builder
 	b.WriteString(p.BaseCfg)
-	b.WriteString("paths:\n")
+	anch := false
+	seqTarget := map[int]bool{}
 	for _, e := range f.Entries {
+		for i, n := range e.AliasNames {
+			if n != "" {
+				if !anch {
+					b.WriteString("c15-anchors:\n")
+					anch = true
+				}
+				b.WriteString("  - &" + n + " " + c15YAMLStr(e.Pats[i]) + "\n")
+			}
+		}
+		if e.Form == 4 {
+			seqTarget[e.SeqOf] = true
+		}
+	}
+	b.WriteString("paths:\n")
+	for ei, e := range f.Entries {
 		k := "  " + c15YAMLStr(e.Glob) + ":"
 		switch e.Form {
+		case 4:
+			b.WriteString(k + "\n    ignore: *c15seq" + fmt.Sprint(e.SeqOf) + "\n")
 		case 1:
 			b.WriteString(k + "\n    ignore: []\n")
 		case 2:
@@ -590,9 +673,17 @@ func c15Config(p *c15Project, f *c15Filter) string {
 		case 3:
 			b.WriteString(k + "\n")
 		default:
-			b.WriteString(k + "\n    ignore:\n")
-			for _, pat := range e.Pats {
-				b.WriteString("      - " + c15YAMLStr(pat) + "\n")
+			if seqTarget[ei] {
+				b.WriteString(k + "\n    ignore: &c15seq" + fmt.Sprint(ei) + "\n")
+			} else {
+				b.WriteString(k + "\n    ignore:\n")
+			}
+			for i, pat := range e.Pats {
+				if e.AliasNames != nil && e.AliasNames[i] != "" {
+					b.WriteString("      - *" + e.AliasNames[i] + "\n")
+				} else {
+					b.WriteString("      - " + c15YAMLStr(pat) + "\n")
+				}
 			}
 		}
 	}
@@ -627,11 +718,19 @@ const (
 var c15SpNames = []string{"relative", "dot-slash", "absolute", "unclean-relative", "no-arguments"}
 
 type c15Inv struct {
-	Cwd    int
-	Sp     int
-	Files  []int // indices into the project's file list, in command line order (nil for no-arguments)
-	Mixed  bool  // each file spelled differently
-	Format int   // 0: -format '{{json .}}', 1: -oneline
+	Cwd int
+	Sp  int
+	// Reach: 0 the repository directory itself; 1 through <scratch>/lnk-repo, a symbolic link to the
+	// repository root; 2 through <scratch>/lnk-parent, a symbolic link to the root's parent directory
+	Reach int
+	// Stdin: 0 file arguments; the workflow (Files[0]) is piped into `actionlint -` with
+	// 1: -stdin-filename naming an existing file of the repository (file StdinName), 2: naming an
+	// existing file outside any repository, 3: naming a file that does not exist, 4: no -stdin-filename
+	Stdin     int
+	StdinName int
+	Files     []int // indices into the project's file list, in command line order (nil for no-arguments)
+	Mixed     bool  // each file spelled differently
+	Format    int   // 0: -format '{{json .}}', 1: -oneline
 }
 
 // c15AllPairs lists the (cwd, spelling) pairs that make sense.
